@@ -4,6 +4,7 @@
     depth <L> <d> <leaf>            stack limit L, d nested script calls whose innermost enters further scopes (leaf kind)
     interrupt <shape>               a halting interrupt sent while a script spins
     depthseq <L> <k> <script|host>  k caught stack overflows in one Run, the admitted nesting probed after each
+    icopy <variant>                 interrupt channel and host-function handle of runtimes made by Copy()
     reenter <k> <vars> <program>    a NON-panicking interrupt function delivered at step k that runs script on the
                                     interrupted runtime (Run, Call, Eval): the program must go on unperturbed
 -/
@@ -88,6 +89,15 @@ def handle (ws : List String) : String :=
       let spec := String.intercalate "," ((List.range (k + 1)).map (fun _ => toString (L - 1)))
       model ++ ";rest:ok;follow:ok " ++ spec ++ ";rest:ok;follow:ok -"
     | _, _ => "bad-op"
+  | ["icopy", v] =>
+    -- Theorems.copy_polls_own / copy_has_no_channel / copy_back_is_itself + fact copy_fresh_handle
+    let t := match v with
+      | "0" | "2" => "copy:halted;rest:ok;follow:ok"
+      | "1" => "copy:1999000,<nil>,stolen=0;template:1999000,<nil>,calls=1;rest:ok;follow:ok"
+      | "3" => "copy:1999000,<nil>,stolen=0;halted;template:1999000,<nil>,calls=1;rest:ok;follow:ok"
+      | "4" => "copy:string,template:undefined;then:copy:copy,template:template"
+      | _ => "bad-op"
+    if t = "bad-op" then t else t ++ " " ++ t ++ " -"
   | ["reenter", _k, _vars, _prog] =>
     -- Theorems.reenter_keeps_labels: the nested run starts from no pending labels, ends with none
     -- (labels_rest_any_sem) and the pending ones are put back (fact poll_keeps_labels)
